@@ -64,7 +64,7 @@ class C28(Check):
     level = "exploration"
     engine = "netsim.http"
     design_ref = "§6 C28"
-    rule = ("a Valet (plain or TLS stub) with idle timeout T drawn from {0.5,1,2} and 1-3 scripted peers (dribbled request "
+    rule = ("a Valet (in a quarter of the runs a Porter; plain or TLS stub) with idle timeout T drawn from {0.5,1,2} and 1-3 scripted peers (dribbled request "
             "heads and bodies, Connection: close and HTTP/1.0 requests answered by long streamed responses with silent "
             "gaps, a pipe capacity drawn per run (with small pipes and large pieces every pass ends in a partial send, the peer reading 7 / 40 / all bytes at a time), keep-alive requests left idle), a seeded schedule of server service passes, clock advances (multiples "
             "of 1/8 s), peer sends of 1-n bytes, peer reads and peer closes; non-trivial = at least one connection was "
